@@ -63,17 +63,37 @@ def do_user_call(X, node, st):
                 raise VCError("__class__ of non-object")
             return construct(X, st, obj.cls, args(), kwargs(), node)
         obj = X.ev(f.value, st)
+        if isinstance(obj, ListV) and f.attr == "append" and obj.elem == "?" and isinstance(f.value, ast.Name):
+            (v,) = [X.ev(a, st) for a in node.args]
+            if isinstance(v, (ConstList, TupleV)):
+                # a fresh empty list receiving a structured (non-heap) element becomes a Python-level list
+                st.env[f.value.id] = ConstList([v])
+                return [("n", st, NONE)]
         if isinstance(obj, ListV):
             X.need(obj, st, "list")
             return list_method(X, st, obj, f.attr, node)
+        if isinstance(obj, StrV):
+            if f.attr == "split":
+                from .tokens import str_split
+                (sep,) = args()
+                if sep.const() is None:
+                    raise VCError("split on a symbolic separator")
+                return [("n", st, ConstList(str_split(obj, sep.const())))]
+            raise VCError(f"str method {f.attr}")
+        if isinstance(obj, ConstList) and f.attr == "append" and isinstance(f.value, ast.Name):
+            (v,) = args()
+            st.env[f.value.id] = ConstList(obj.items + [v])      # Python-level list of fixed length: copy-on-write
+            return [("n", st, NONE)]
         if isinstance(obj, ConstList):
+            if f.attr == "pop":
+                raise VCError("pop on a constant list")
             raise VCError(f"method .{f.attr} on constant list at line {node.lineno}")
         if isinstance(obj, Ref):
             X.need(obj, st, f"receiver of .{f.attr}()")
             cls, fn = X.ctx.find_method(obj.cls, f.attr)
             if fn is None:
                 raise VCError(f"unknown method {obj.cls}.{f.attr}")
-            return call_function(X, st, cls, fn, [obj] + args(), kwargs(), node)
+            return call_function(X, st, cls, fn, ([] if _is_static(fn) else [obj]) + args(), kwargs(), node)
         if isinstance(obj, Opaque):
             return [("n", st, NONE)]
         raise VCError(f"method .{f.attr} on {obj!r} at line {node.lineno}")
@@ -141,10 +161,11 @@ def inline(X, st, cls, fn, env, qual):
     if X.depth >= MAX_INLINE_DEPTH:
         raise VCError(f"inline depth exceeded at {qual}")
     X.inlined.add(qual)
-    saved = (X.contract, X.loop_counter, X.local_defs, getattr(X, "loop_prefix", ""))
+    saved = (X.contract, X.loop_counter, X.local_defs, getattr(X, "loop_prefix", ""), getattr(X, "loop_names", None))
     X.depth += 1
     X.contract = X.ctx.contracts.get(qual + "#loops")
     X.loop_counter = 0
+    X.loop_names = X.name_loops(fn)
     X.local_defs = {n.name: n for n in fn.body if isinstance(n, ast.FunctionDef)}
     callee = State(env, st.heap, st.pc, dict(st.meta))
     callee.meta["cls"] = cls
@@ -162,7 +183,7 @@ def inline(X, st, cls, fn, env, qual):
         return outs
     finally:
         X.depth -= 1
-        X.contract, X.loop_counter, X.local_defs, X.loop_prefix = saved
+        X.contract, X.loop_counter, X.local_defs, X.loop_prefix, X.loop_names = saved
 
 
 def call_closure(X, st, fn, args, kwargs):
@@ -174,9 +195,10 @@ def call_closure(X, st, fn, args, kwargs):
             nonlocals |= set(s.names)
     callee_env = dict(st.env)
     callee_env.update(env)
-    saved = (X.loop_counter, getattr(X, "loop_prefix", ""))
+    saved = (X.loop_counter, getattr(X, "loop_prefix", ""), getattr(X, "loop_names", None))
     X.loop_prefix = fn.name + "."
     X.loop_counter = 0
+    X.loop_names = X.name_loops(fn)
     X.depth += 1
     try:
         outs = []
@@ -197,7 +219,7 @@ def call_closure(X, st, fn, args, kwargs):
         return outs
     finally:
         X.depth -= 1
-        X.loop_counter, X.loop_prefix = saved
+        X.loop_counter, X.loop_prefix, X.loop_names = saved
 
 
 # ---------------------------------------------------------------------------- contracts at call sites
@@ -340,7 +362,7 @@ def list_method(X, st, L, name, node):
         if isinstance(v, (TupleV, ConstList)):
             raise VCError("append of tuple/list element")
         if L.elem == "?":
-            L.elem = ("ref:" + v.cls) if isinstance(v, Ref) else ("list:" + v.elem if isinstance(v, ListV) else "int")
+            L.elem = ("ref:" + v.cls) if isinstance(v, Ref) else ("list:" + v.elem if isinstance(v, ListV) else ("tok" if isinstance(v, StrV) or type(v).__name__ == "TokV" else "int"))
         X.lset_arr(st, L, z3.Store(arr, n, term_of(v)), n + 1)
         return [("n", st, NONE)]
     if name == "extend":
